@@ -72,6 +72,16 @@ def find_func(tree, name):
     raise KeyError("function %s not found" % name)
 
 
+def const_seq(node, what):
+    """the constants of a list / tuple / set literal, possibly wrapped in set(...), frozenset(...), list(...), tuple(...)"""
+    while isinstance(node, ast.Call) and isinstance(node.func, ast.Name) and node.func.id in ("set", "frozenset", "list", "tuple", "sorted") \
+            and len(node.args) == 1 and not node.keywords:
+        node = node.args[0]
+    if isinstance(node, (ast.List, ast.Tuple, ast.Set)) and all(isinstance(e, ast.Constant) for e in node.elts):
+        return [e.value for e in node.elts]
+    raise ValueError("%s is not a literal collection of constants" % what)
+
+
 def handler_name(v):
     if isinstance(v, ast.Name):
         return v.id
@@ -99,17 +109,20 @@ def extract(repo):
     for _, h in g["handlers"]:
         if h not in KNOWN_HANDLERS:
             raise ValueError("handler %r is not modelled" % h)
-    ign = find_assign(body, "_ignored_elements")
-    if not (isinstance(ign, ast.Call) and ign.args and isinstance(ign.args[0], ast.List)):
-        raise ValueError("_ignored_elements is not set([...])")
-    g["ignored"] = [e.value for e in ign.args[0].elts]
+    g["ignored"] = const_seq(find_assign(body, "_ignored_elements"), "_ignored_elements")
     # browser-friendly image types: `if content_type in [...]` inside _read_image
     ri = find_func(body, "_read_image")
-    lists = [n for n in ast.walk(ri) if isinstance(n, ast.Compare) and isinstance(n.ops[0], ast.In)
-             and isinstance(n.comparators[0], ast.List)]
-    if len(lists) != 1:
-        raise ValueError("_read_image: expected one `in [...]` test")
-    g["browserImageTypes"] = [e.value for e in lists[0].comparators[0].elts]
+    lists = [n for n in ast.walk(ri) if isinstance(n, ast.Compare) and isinstance(n.ops[0], (ast.In, ast.NotIn))
+             and isinstance(n.comparators[0], (ast.List, ast.Tuple, ast.Set))]
+    if len(lists) == 1:
+        g["browserImageTypes"] = const_seq(lists[0].comparators[0], "browser image types")
+    else:
+        # the list may have been hoisted into a module-level constant: the single name tested with `in` / `not in`
+        names = [n.comparators[0].id for n in ast.walk(ri) if isinstance(n, ast.Compare) and isinstance(n.ops[0], (ast.In, ast.NotIn))
+                 and isinstance(n.comparators[0], ast.Name)]
+        if len(names) != 1:
+            raise ValueError("_read_image: expected one `in [...]` test")
+        g["browserImageTypes"] = const_seq(find_assign(body, names[0]), names[0])
     # instruction regexes
     pit = find_func(body, "parse_instr_text")
     regs = [n.args[0].value for n in ast.walk(pit)
@@ -135,7 +148,7 @@ def extract(repo):
 
     nodes = parse(repo, "mammoth/html/nodes.py")
     void = find_assign(nodes, "_VOID_TAG_NAMES")
-    g["voidTagNames"] = sorted(e.value for e in void.args[0].elts)
+    g["voidTagNames"] = sorted(const_seq(void, "_VOID_TAG_NAMES"))
 
     ox = parse(repo, "mammoth/docx/office_xml.py")
     g["namespaces"] = [tuple(x) for x in ast.literal_eval(find_assign(ox, "_namespaces"))]
@@ -153,10 +166,13 @@ for cp in list(range(0, 0x300)) + [0x2028, 0x2029, 0xfeff, 0x1f600]:
     e = _escape_html(c)
     if e != c: esc.append([c, e])
 rules = None
+def as_rules(v):
+    if isinstance(v, (list, tuple)) and v and all(isinstance(x, tuple) and len(x) == 2 and hasattr(x[1], "pattern") for x in v):
+        return [[t, r.pattern] for t, r in v]
 for cell in (tokeniser.tokenise.__closure__ or ()):
-    v = cell.cell_contents
-    if isinstance(v, list) and v and isinstance(v[0], tuple):
-        rules = [[t, r.pattern] for t, r in v]
+    rules = rules or as_rules(cell.cell_contents)
+for v in list(vars(tokeniser).values()):      # or hoisted to module level
+    rules = rules or as_rules(v)
 print(json.dumps({"esc": esc, "rules": rules}))
 """ % repo
     p = subprocess.run([sys.executable, "-c", code], capture_output=True, text=True, timeout=120)
